@@ -15,6 +15,16 @@ def frac(name):
 def strict_rule(chk, run, fn, construct, lower_tag, upper_tag=None):
     """Comparisons in `fn` involving the tagged bound: strict, bound on the correct side."""
     evs = run.events("compare", fn)
+    # the index array of the crossing mask (and what is selected with it) is read at its two ends only: a literal position other than [0] / [-1]
+    # is a located wrong instance
+    lit_ = [x for x in run.events("subscript", fn) if ("where-index" in x.base.tags) and x.base.kind == K_ARRAY and x.index.kind == K_SCALAR and
+            x.index.has_const() and isinstance(x.index.const, int) and not isinstance(x.index.const, bool) and x.index.const not in (0, -1)]
+    for x in [e for e in run.I.events if e.kind == "precondition"][:1]:
+        chk.ob("R-MEASURE", "%s{bisection}" % construct, "a user-supplied measure is searched by comparison with the bounds (a bisection needs an ascending series)",
+               False, derived=x.what, loc=x.loc, stmt=x.stmt)
+    for x in lit_[:1]:
+        chk.ob("R-ENDS", "%s{end positions}" % construct, "the samples of the crossing mask are read at [0] (first) and [-1] (last) only", False,
+               derived="read at literal position [%d]" % x.index.const, loc=x.loc, stmt=x.stmt)
     if upper_tag is not None:
         # the fractions are fractions of the FINAL value of the cumulative measure: wherever one element of the measure is picked out to
         # scale a fraction, it is the last one
@@ -247,6 +257,14 @@ def check_value(chk, c, v, se, measure_tags, atom, not_tags, forwarder=False):
             expect(chk, "R-REL", c + "." + nm, x, deg={atom: 0, DT: 1}, parity={atom: "even"}, kind=K_SCALAR, atoms=(atom, DT))
             expect(chk, "R-MEASURE", c + "." + nm, x, tags_has=list(measure_tags), tags_not=list(not_tags))
     else:
-        expect(chk, "R-ENDS", c, v, sign="nonneg", tags_has=["sel:first", "sel:last", "span:hi-lo"], kind=K_SCALAR)      # the duration is end - start
+        if v is not None and "span:hi-lo" not in v.tags:
+            # no (last - first) of one index array reaches the result: the reversed difference (first - last, provably <= 0) is the located wrong
+            # instance; ends found some other way (bisection, a scan, joined with a fast path) are not located
+            rev_ = v.sign in (S_NONPOS, S_NEG)
+            chk.ob("R-ENDS", c + "[extent]", "the duration is (last - first) of one ascending index array, times dt", False,
+                   derived="sign %s, no (last - first) extent reaches the result" % v.sign, inconclusive=not rev_)
+            expect(chk, "R-ENDS", c, v, kind=K_SCALAR)
+        else:
+            expect(chk, "R-ENDS", c, v, sign="nonneg", tags_has=["sel:first", "sel:last", "span:hi-lo"], kind=K_SCALAR)      # the duration is end - start
         expect(chk, "R-REL", c, v, deg={atom: 0, DT: 1}, parity={atom: "even"}, atoms=(atom, DT))
         expect(chk, "R-MEASURE", c, v, tags_has=list(measure_tags), tags_not=list(not_tags))
